@@ -15,6 +15,8 @@ import (
 	"github.com/panjf2000/gnet/v2/internal/verifmc/mcsys"
 	"github.com/panjf2000/gnet/v2/internal/verifmc/sched"
 	"github.com/panjf2000/gnet/v2/internal/verifmc/seqmc"
+	bsPool "github.com/panjf2000/gnet/v2/pkg/pool/byteslice"
+	rbPool "github.com/panjf2000/gnet/v2/pkg/pool/ringbuffer"
 )
 
 func streamByte(i int) byte { return byte((i*131 + i/251*7 + 17) % 251) }
@@ -38,11 +40,34 @@ type inCfg struct {
 
 type inState struct {
 	total     int
-	lastView  []byte // slice returned by the previous Next/Peek ...
-	lastWant  []byte // ... and what it must still contain when the next Reader call is made
-	offered   int    // max over callbacks of consumed+buffered
+	lastView  []byte   // slice returned by the previous Next/Peek ...
+	lastWant  []byte   // ... and what it must still contain when the next Reader call is made
+	nextViews [][]byte // slices returned by Next in this callback: valid until the callback returns
+	nextWants [][]byte
+	offered   int // max over callbacks of consumed+buffered
 	closeRest []byte
 	closeSeen bool
+}
+
+// churnPools plays an unrelated connection: it takes buffers of the sizes in play from the shared
+// byte-slice and ring-buffer pools, scribbles over them and puts them back.
+func churnPools(n int) {
+	for _, k := range []int{n, 1, 512, 1024, 2048, 4096} {
+		if k <= 0 {
+			continue
+		}
+		b := bsPool.Get(k)
+		for i := range b[:cap(b)] {
+			b[:cap(b)][i] = 0xA5
+		}
+		bsPool.Put(b)
+	}
+	for i := 0; i < 2; i++ {
+		rb := rbPool.Get()
+		junk := bytes.Repeat([]byte{0x5A}, 1500)
+		_, _ = rb.Write(junk)
+		rbPool.Put(rb)
+	}
 }
 
 type limitWriter struct {
@@ -74,9 +99,14 @@ func (w *world) consume(ci *connInfo, st *inState, op string) {
 	fail := func(sig, format string, a ...interface{}) {
 		w.violate("in:"+sig, "connection #%d, %s: %s", ci.id, op, fmt.Sprintf(format, a...))
 	}
-	// a view handed out earlier must be intact until the next Reader call
+	// views handed out earlier must be intact: Peek's until the next Discard, Next's until the callback returns
 	if st.lastView != nil && !bytes.Equal(st.lastView, st.lastWant) {
-		fail("view-clobbered", "the slice returned by the previous Next/Peek changed before the next read call")
+		fail("view-clobbered", "the slice returned by the previous Peek changed although no Discard was called")
+	}
+	for i := range st.nextViews {
+		if !bytes.Equal(st.nextViews[i], st.nextWants[i]) {
+			fail("view-clobbered", "a slice returned by Next earlier in this callback changed")
+		}
 	}
 	st.lastView, st.lastWant = nil, nil
 	buffered := c.InboundBuffered()
@@ -100,6 +130,22 @@ func (w *world) consume(ci *connInfo, st *inState, op string) {
 		}
 		st.lastView, st.lastWant = b, append([]byte{}, b...)
 	}
+	defer func() {
+		// other connections (on other loops) use the same global pools all the time: whatever the
+		// framework handed to this handler must not be memory it has already given back
+		if st.lastView != nil || len(st.nextViews) > 0 {
+			churnPools(len(st.lastView) + 8)
+			if st.lastView != nil && !bytes.Equal(st.lastView, st.lastWant) {
+				fail("view-recycled", "the slice returned by Peek was overwritten by an unrelated user of the shared buffer pools while the handler still holds it")
+			}
+			for i := range st.nextViews {
+				churnPools(len(st.nextViews[i]))
+				if !bytes.Equal(st.nextViews[i], st.nextWants[i]) {
+					fail("view-recycled", "a slice returned by Next was overwritten by an unrelated user of the shared buffer pools while the handler still holds it (it had been given back to a pool)")
+				}
+			}
+		}
+	}()
 	switch op {
 	case "nothing":
 	case "next-all":
@@ -108,7 +154,7 @@ func (w *world) consume(ci *connInfo, st *inState, op string) {
 			fail("count", "Next(-1) = %d bytes, %v with %d buffered", len(b), err, buffered)
 		}
 		take(b, "Next(-1)")
-		st.lastView, st.lastWant = b, append([]byte{}, b...)
+		st.nextViews, st.nextWants = append(st.nextViews, b), append(st.nextWants, append([]byte{}, b...))
 	case "next1":
 		if buffered >= 1 {
 			b, err := c.Next(1)
@@ -116,6 +162,7 @@ func (w *world) consume(ci *connInfo, st *inState, op string) {
 				fail("count", "Next(1) = %d bytes, %v", len(b), err)
 			}
 			take(b, "Next(1)")
+			st.nextViews, st.nextWants = append(st.nextViews, b), append(st.nextWants, append([]byte{}, b...))
 		}
 	case "read1", "read-all", "read-all+8":
 		n := 1
@@ -210,6 +257,9 @@ func inWorld(c inCfg) *world {
 		w.opts = append(w.opts, WithEdgeTriggeredIO(true))
 	case "ETchunk":
 		w.opts = append(w.opts, WithEdgeTriggeredIOChunk(1024))
+	case "ETchunk<buf":
+		// the per-round chunk limit is smaller than the read buffer
+		w.opts = append(w.opts[:0], WithReadBufferCap(4096), WithEdgeTriggeredIOChunk(1024))
 	}
 	total := 0
 	for _, s := range c.segs {
@@ -230,15 +280,20 @@ func inWorld(c inCfg) *world {
 		w.consume(ci, st, op)
 		w.inInvariant(ci, st, "after "+op)
 		if c.chain && op != "next-all" {
-			second := []string{"nothing", "next-all", "peek-all+discard1", "read1"}
+			second := []string{"nothing", "next-all", "peek-all+discard1", "read1", "next1", "discard1"}
 			op2 := second[sched.Choose(len(second), "consume2")]
 			w.consume(ci, st, op2)
 			w.inInvariant(ci, st, "after "+op+","+op2)
 		}
 		if st.lastView != nil && !bytes.Equal(st.lastView, st.lastWant) {
-			w.violate("in:view-clobbered", "connection #%d: the slice returned by Next/Peek changed before the callback returned", ci.id)
+			w.violate("in:view-clobbered", "connection #%d: the slice returned by Peek changed before the callback returned", ci.id)
 		}
-		st.lastView, st.lastWant = nil, nil
+		for i := range st.nextViews {
+			if !bytes.Equal(st.nextViews[i], st.nextWants[i]) {
+				w.violate("in:view-clobbered", "connection #%d: a slice returned by Next changed before the callback returned", ci.id)
+			}
+		}
+		st.lastView, st.lastWant, st.nextViews, st.nextWants = nil, nil, nil, nil
 		return None
 	}
 	w.onClose = func(w *world, ci *connInfo, err error) Action {
@@ -321,7 +376,7 @@ func pendingOutWorld(mode string) *world {
 		w.inInvariant(ci, st, "at OnTraffic entry")
 		w.consume(ci, st, "next-all")
 		w.inInvariant(ci, st, "after next-all")
-		st.lastView, st.lastWant = nil, nil
+		st.lastView, st.lastWant, st.nextViews, st.nextWants = nil, nil, nil, nil
 		if !wrote {
 			wrote = true
 			_, _ = ci.c.Write(make([]byte, 400*1024))
@@ -373,6 +428,12 @@ func inConfigs(thorough bool) []inCfg {
 	if thorough {
 		segs = append(segs, []int{1, 1, 1}, []int{1024, 1024, 2}, []int{500, 600, 1500, 1}, []int{2, 1500, 500})
 	}
+	// bursts larger than a chunk limit that is smaller than the read buffer
+	for _, s := range [][]int{{1500}, {1024, 1024, 2}, {600, 600, 600}} {
+		for _, fin := range []bool{false, true} {
+			out = append(out, inCfg{name: fmt.Sprintf("in/%s/%v/fin=%v", "ETchunk<buf", s, fin), mode: "ETchunk<buf", segs: s, finWith: fin, chain: thorough})
+		}
+	}
 	for _, mode := range []string{"LT", "ET", "ETchunk"} {
 		for i, s := range segs {
 			for _, fin := range []bool{false, true} {
@@ -395,9 +456,7 @@ func inSchedConfigs() ([]sched.Config, func(string) *sched.Config) {
 	var out []sched.Config
 	for _, c := range inConfigs(true) {
 		c := c
-		if !thorough {
-			c.chain = false
-		}
+		c.chain = true // a second consumption step per callback in both tiers
 		out = append(out, sched.Config{Property: "C01", Name: c.name, Bounds: bounds, Horizon: 20000, Deadline: seqmc.Deadline(), DelayBounded: true, New: func() sched.Scenario { return inWorld(c) }})
 	}
 	for _, mode := range []string{"LT", "ET"} {
